@@ -181,21 +181,27 @@ inline void fence(std::memory_order o) noexcept {
   vmcrt::observed(nullptr, vmcrt::K_FENCE, (uint64_t)o, false);
 }
 
+// the runtime is not sanitizer-instrumented: touch the object from instrumented code first so that a lock
+// operation on a destroyed/freed mutex or condition variable is reported by ASan
+template <class X>
+inline void vmc_touch(X* p) noexcept { volatile char* c = reinterpret_cast<volatile char*>(p); *c = *c; }
 struct mutex {
   vmcrt::Mutex m_;
   mutex() = default;
   mutex(const mutex&) = delete;
-  void lock() { vmcrt::mutex_lock(&m_); VMC_TSAN_ACQ(&m_); }
-  bool try_lock() { bool ok = vmcrt::mutex_try_lock(&m_); if (ok) VMC_TSAN_ACQ(&m_); return ok; }
-  void unlock() { VMC_TSAN_REL(&m_); vmcrt::mutex_unlock(&m_); }
+  ~mutex() { vmcrt::mutex_destroyed(&m_); }
+  void lock() { vmcrt::point(&m_, vmcrt::K_LOCK); vmc_touch(&m_); vmcrt::mutex_lock(&m_); VMC_TSAN_ACQ(&m_); }
+  bool try_lock() { vmcrt::point(&m_, vmcrt::K_LOCK); vmc_touch(&m_); bool ok = vmcrt::mutex_try_lock(&m_); if (ok) VMC_TSAN_ACQ(&m_); return ok; }
+  void unlock() { vmcrt::point(&m_, vmcrt::K_UNLOCK); vmc_touch(&m_); VMC_TSAN_REL(&m_); vmcrt::mutex_unlock(&m_); }
 };
 struct recursive_mutex {
   vmcrt::Mutex m_;
   recursive_mutex() = default;
   recursive_mutex(const recursive_mutex&) = delete;
-  void lock() { vmcrt::mutex_lock(&m_, true); VMC_TSAN_ACQ(&m_); }
-  bool try_lock() { bool ok = vmcrt::mutex_try_lock(&m_, true); if (ok) VMC_TSAN_ACQ(&m_); return ok; }
-  void unlock() { VMC_TSAN_REL(&m_); vmcrt::mutex_unlock(&m_); }
+  ~recursive_mutex() { vmcrt::mutex_destroyed(&m_); }
+  void lock() { vmcrt::point(&m_, vmcrt::K_LOCK); vmc_touch(&m_); vmcrt::mutex_lock(&m_, true); VMC_TSAN_ACQ(&m_); }
+  bool try_lock() { vmcrt::point(&m_, vmcrt::K_LOCK); vmc_touch(&m_); bool ok = vmcrt::mutex_try_lock(&m_, true); if (ok) VMC_TSAN_ACQ(&m_); return ok; }
+  void unlock() { vmcrt::point(&m_, vmcrt::K_UNLOCK); vmc_touch(&m_); VMC_TSAN_REL(&m_); vmcrt::mutex_unlock(&m_); }
 };
 inline vmcrt::Mutex* vmc_raw(std::unique_lock<mutex>& lk) { return &lk.mutex()->m_; }
 
@@ -212,9 +218,11 @@ struct condition_variable {
   vmcrt::CondVar c_;
   condition_variable() = default;
   condition_variable(const condition_variable&) = delete;
-  void notify_one() noexcept { vmcrt::cv_notify(&c_, false); }
-  void notify_all() noexcept { vmcrt::cv_notify(&c_, true); }
+  void notify_one() noexcept { vmcrt::point(&c_, vmcrt::K_NOTIFY); vmc_touch(&c_); vmcrt::cv_notify(&c_, false); }
+  void notify_all() noexcept { vmcrt::point(&c_, vmcrt::K_NOTIFY); vmc_touch(&c_); vmcrt::cv_notify(&c_, true); }
   void wait(std::unique_lock<mutex>& lk) {
+    vmcrt::point(&c_, vmcrt::K_WAIT);
+    vmc_touch(&c_); vmc_touch(vmc_raw(lk));
     VMC_TSAN_REL(vmc_raw(lk));
     vmcrt::cv_wait(&c_, vmc_raw(lk));
     VMC_TSAN_ACQ(vmc_raw(lk));
@@ -225,6 +233,8 @@ struct condition_variable {
   std::cv_status wait_until(std::unique_lock<mutex>& lk, const std::chrono::time_point<C, D>& tp) {
     static_assert(std::is_same<C, clock>::value, "vmc: only the virtual steady clock is supported in timed waits");
     long long dl = std::chrono::duration_cast<std::chrono::nanoseconds>(tp.time_since_epoch()).count();
+    vmcrt::point(&c_, vmcrt::K_WAIT);
+    vmc_touch(&c_); vmc_touch(vmc_raw(lk));
     VMC_TSAN_REL(vmc_raw(lk));
     bool to = vmcrt::cv_wait_until(&c_, vmc_raw(lk), dl);
     VMC_TSAN_ACQ(vmc_raw(lk));
